@@ -206,7 +206,7 @@ func candidates(th bool) []*cand {
 }
 
 // proofKinds are computed relative to the held size m and the candidate (size n, family).
-var proofKinds = []string{"correct", "empty", "for-m+1", "for-m-1", "other-family", "truncated", "padded", "random", "duplicated-first"}
+var proofKinds = []string{"correct", "empty", "for-m+1", "for-m-1", "other-family", "truncated", "padded", "random", "duplicated-first", "from-size-1", "from-size-2"}
 
 func mkProof(kind string, m int, c *cand) [][]byte {
 	n := c.size
@@ -237,6 +237,11 @@ func mkProof(kind string, m int, c *cand) [][]byte {
 		return append(pr(m, n, c.fork), merkle.LeafHash([]byte("pad")))
 	case "random":
 		return [][]byte{merkle.LeafHash([]byte("r1")), merkle.LeafHash([]byte("r2"))}
+	case "from-size-1":
+		// a correct proof, but from a size the witness held earlier (or never), not from the one it holds now
+		return pr(1, n, c.fork)
+	case "from-size-2":
+		return pr(2, n, c.fork)
 	case "duplicated-first":
 		p := pr(m, n, c.fork)
 		if len(p) > 0 {
@@ -806,7 +811,7 @@ func TestCheck(t *testing.T) {
 		alphabet = append(alphabet, op{Kind: "getsth", Log: al})
 	}
 	alphabet = append(alphabet, op{Kind: "getlogs"})
-	r.Rule("explicit-state BFS: state = stored raw STH per log (read back from the witness database); every state is reached by replaying its shortest operation path on a fresh real witness over a fresh sqlite database; from every state every operation of the alphabet is run on the real code (directly and through the HTTP server) and compared with a reference witness (map + RFC 6962 consistency verification by ref/merkle). Alphabet: Update x {log A, log B, unknown log id, two alias spellings of log A's id (non-zero base64 padding bits, trailing newline; proofs correct/empty)} x candidate STHs (honest sizes 0..5, fork sizes 3..5 diverging at leaf 2, other timestamp, embedded id right/wrong, flipped signature, other log's key, unknown key, log B sizes 0..2, non-JSON) x 9 proof kinds (correct, empty, for m+1, for m-1, other family, truncated, padded, random, duplicated hash), GetSTH per id, GetLogs; Update of log A with every candidate and a COMMIT that the database refuses; every response the API handed out is re-read after every later call")
+	r.Rule("explicit-state BFS: state = stored raw STH per log (read back from the witness database); every state is reached by replaying its shortest operation path on a fresh real witness over a fresh sqlite database; from every state every operation of the alphabet is run on the real code (directly and through the HTTP server) and compared with a reference witness (map + RFC 6962 consistency verification by ref/merkle). Alphabet: Update x {log A, log B, unknown log id, two alias spellings of log A's id (non-zero base64 padding bits, trailing newline; proofs correct/empty)} x candidate STHs (honest sizes 0..5, fork sizes 3..5 diverging at leaf 2, other timestamp, embedded id right/wrong, flipped signature, other log's key, unknown key, log B sizes 0..2, non-JSON) x 11 proof kinds (correct, empty, for m+1, for m-1, other family, truncated, padded, random, duplicated hash, correct from size 1 / from size 2 whatever is held), GetSTH per id, GetLogs; Update of log A with every candidate and a COMMIT that the database refuses; every response the API handed out is re-read after every later call")
 	r.Assume("the witness keeps no state outside its database table, so a state may be restored by rewriting the rows between transitions of one expansion (each state itself is first reached by replay)",
 		"a candidate is a genuine extension iff the held tree's leaves are a prefix of its leaves (two-family construction); the reference applies an update iff the supplied proof verifies under RFC 6962")
 	c := &checker{r: r}
@@ -817,6 +822,12 @@ func TestCheck(t *testing.T) {
 	order = append(order, start)
 	var transitions, validated atomic.Int64
 	maxDepth := 0
+	type edge struct {
+		from *node
+		op   op
+		to   string
+	}
+	var edges []edge
 	for qi := 0; qi < len(order); qi++ {
 		if r.Expired() {
 			r.Capped(fmt.Sprintf("deadline reached after expanding %d of %d known states", qi, len(order)))
@@ -876,6 +887,7 @@ func TestCheck(t *testing.T) {
 		sort.Slice(succs, func(i, j int) bool { return succs[i].op.String() < succs[j].op.String() })
 		for _, sc := range succs {
 			k := sc.s.key()
+			edges = append(edges, edge{n, sc.op, k})
 			if _, ok := seen[k]; ok {
 				continue
 			}
@@ -884,6 +896,55 @@ func TestCheck(t *testing.T) {
 			order = append(order, nn)
 		}
 	}
+	// the same state reached another way: a state is the stored STH per log, but an implementation may remember more
+	// (what it held before, what it answered before). Every state is therefore also entered through every other accepted
+	// transition that leads to it - not only along its shortest path - and the whole alphabet is run from there
+	var alt []edge
+	for _, e := range edges {
+		to := seen[e.to]
+		if to == nil || len(e.from.path)+1 > 3 {
+			continue
+		}
+		same := len(to.path) == len(e.from.path)+1 && to.path[len(to.path)-1].String() == e.op.String()
+		for k := 0; same && k < len(e.from.path); k++ {
+			same = to.path[k].String() == e.from.path[k].String()
+		}
+		if !same {
+			alt = append(alt, e)
+		}
+	}
+	var altTransitions atomic.Int64
+	altDone := enum.ParFor(len(alt), r.Expired, func(i int) {
+		e := alt[i]
+		in, err := newInst()
+		if err != nil {
+			r.Violation("harness-new-witness", err.Error(), nil)
+			return
+		}
+		defer in.close()
+		path := append(append([]op{}, e.from.path...), e.op)
+		st := refState{}
+		for k, o := range path {
+			st = c.checkOp(in, st, o, false, path[:k])
+		}
+		if st.key() != e.to {
+			r.Violation("replay-diverged", fmt.Sprintf("replaying %v gave state {%s}, expected {%s}", path, st.key(), e.to), nil)
+			return
+		}
+		base, _ := in.rows()
+		for _, o := range alphabet {
+			c.checkOp(in, st, o, false, path)
+			altTransitions.Add(1)
+			if err := in.restore(base); err != nil {
+				r.Violation("harness-restore", err.Error(), nil)
+			}
+		}
+	})
+	if !altDone {
+		r.Capped("deadline reached while re-entering states along other paths")
+	}
+	r.Set("states_re_entered_along_another_path", len(alt))
+	r.Set("transitions_from_re_entered_states", altTransitions.Load())
 	// differential: every state reached by replay on a fresh instance must serve the
 	// same stored bytes as the reference (done in checkOp); additionally replay two
 	// different paths to the same state and compare rows
